@@ -877,6 +877,73 @@ func compactVal(v interface{}) string {
 	return compact(b)
 }
 
+// one decoder, many values: a connection's decoder lives as long as the connection - what it hands out for the
+// n-th value must not depend on the values it has decoded before (conforming representations of catalogue
+// values, separated by SP, several thousand of them on one Decoder of each side)
+type manyT struct {
+	ln *lineT
+	rp repT
+}
+
+var many []manyT
+
+func longLived(all []manyT, out *vh.Out) {
+	if len(all) == 0 {
+		return
+	}
+	for _, side := range []w.ConnSide{w.ConnSideServer, w.ConnSideClient} {
+		var buf bytes.Buffer
+		var seq []manyT
+		for round := 0; round < 6 && len(seq) < 12000; round++ {
+			for _, m := range all {
+				buf.Write(toBytes(m.rp.B))
+				buf.WriteByte(' ')
+				seq = append(seq, m)
+			}
+		}
+		buf.WriteString("Z\r\n")
+		br := bufio.NewReader(&buf)
+		dec := w.NewDecoder(br, side)
+		for i, m := range seq {
+			var got interface{}
+			ok := false
+			func() {
+				defer func() {
+					if r := recover(); r != nil {
+						ok = false
+					}
+				}()
+				switch m.ln.K {
+				case "list":
+					t, err := readTree(dec)
+					ok = err == nil
+					got = treeVal(m.ln.K, t)
+				case "num":
+					var n uint32
+					ok = dec.ExpectNumber(&n)
+					got = ints([]byte(strconv.FormatUint(uint64(n), 10)))
+				default:
+					var sv string
+					switch m.rp.G {
+					case "astring":
+						ok = dec.ExpectAString(&sv)
+					case "nstring":
+						ok = dec.ExpectNString(&sv)
+					default:
+						ok = dec.ExpectString(&sv)
+					}
+					got = strVal(m.ln.K, sv)
+				}
+			}()
+			if !ok || dec.Err() != nil || !sameValue(m.ln, normVal(got)) || !dec.ExpectSP() {
+				out.Mismatch("many/"+m.ln.K, fmt.Sprintf("value %d of %d on one Decoder: %s value %s written as %s decoded to %s (ok=%v err=%v); the same representation decodes correctly on a fresh Decoder",
+					i+1, len(seq), m.ln.K, compact(m.ln.V), show(m.rp.B), compactVal(got), ok, dec.Err()), nil)
+				return
+			}
+		}
+	}
+}
+
 func cmdReplay(path, tracePath string) {
 	out := vh.NewOut()
 	defer out.Flush()
@@ -900,6 +967,13 @@ func cmdReplay(path, tracePath string) {
 			st.nontrivial++
 		}
 		runLineDecoders(ln, st, out)
+		if ln.Must && !ln.Refuse && (ln.K == "list" || ln.K == "str" || ln.K == "num") {
+			for _, rp := range ln.Reps {
+				if rp.Cls == "std" && rp.To == "b" && len(many) < 4000 {
+					many = append(many, manyT{ln, rp})
+				}
+			}
+		}
 		if len(st.samples) < 3 && st.behaviours%97 == 5 {
 			st.samples = append(st.samples, map[string]interface{}{"k": ln.K, "v": ln.V, "reps": len(ln.Reps)})
 		}
@@ -910,6 +984,7 @@ func cmdReplay(path, tracePath string) {
 		out.Summary(map[string]interface{}{"infra_error": err.Error()})
 		return
 	}
+	longLived(many, out)
 	out.Summary(map[string]interface{}{"behaviours": st.behaviours, "steps": st.steps + rec.runs, "nontrivial": st.nontrivial,
 		"samples": st.samples, "decoder_cases": st.steps, "rep_classes": st.cls, "records": rec.records,
 		"encoder_runs": rec.runs, "encoder_refusals": rec.refused, "encoder_literals": rec.lits,
